@@ -633,9 +633,10 @@ func runHistories(c *vh.Ctx, c01, c03 bool) {
 				c.Inconclusive("initial sync did not quiesce")
 				return
 			}
-			checkpoints := map[int]bool{len(hist) - 1: true}
-			for k := 0; k < 2; k++ {
-				checkpoints[r.Intn(len(hist))] = true
+			// a checkpoint after every batch: a stale resource is often repaired by the next unrelated push
+			checkpoints := map[int]bool{}
+			for k := range hist {
+				checkpoints[k] = true
 			}
 			removalsSeen, changed := false, false
 			prevSkip, prevNarrow, _ := w.a.gen.totals()
@@ -730,15 +731,12 @@ func runHistories(c *vh.Ctx, c01, c03 bool) {
 						prevState[pi] = cur
 					}
 					info := fmt.Sprintf("checkpoint after batch %d of history/%d (kinds changed since previous checkpoint: %s)", bi, i, w.changedKinds())
-					n1, ok := w.checkAgainstFresh(w.a, w.sotw, allIdx(), "c01", info)
+					both := append(append([]*envoyclient.Client{}, w.sotw...), w.delta...)
+					n1, ok := w.checkAgainstFresh(w.a, both, append(allIdx(), allIdx()...), "c01", info)
 					if !ok {
 						return
 					}
-					n2, ok := w.checkAgainstFresh(w.a, w.delta, allIdx(), "c01", info)
-					if !ok {
-						return
-					}
-					c.Count("resources_compared", n1+n2)
+					c.Count("resources_compared", n1)
 					c.Count("checkpoints", 1)
 					if skipped {
 						c.Count("checkpoints_with_skipped_or_narrowed_pushes", 1)
